@@ -52,6 +52,9 @@ type Request struct {
 	WatchdogMs int               `json:"watchdog_ms,omitempty"`
 	WantDAG    bool              `json:"want_dag,omitempty"`
 	WantSchema bool              `json:"want_schema,omitempty"`
+	// PriorInputs are executed one after the other on the prepared workflow before the observed
+	// run (their results are discarded; their events carry the phase "warmup").
+	PriorInputs []any `json:"prior_inputs,omitempty"`
 	// Validate asks for in-worker schema validation of observed values (C08).
 	Validate bool `json:"validate,omitempty"`
 	// StartFail names steps of kind "vstartfail" whose Start must fail (C05).
@@ -235,6 +238,19 @@ func Run(req *Request) *Answer {
 		return ans
 	}
 
+	if len(req.PriorInputs) > 0 {
+		w.SetPhase("warmup")
+		for _, in := range req.PriorInputs {
+			func() {
+				defer func() { _ = recover() }()
+				ctx, cancel := context.WithTimeout(context.Background(), 10*time.Second)
+				defer cancel()
+				_, _, _ = wf.Execute(ctx, in)
+			}()
+		}
+		ans.DeploysProbe = w.Deploys.Load()
+		ans.ClosesProbe = w.Closes.Load()
+	}
 	w.SetPhase("run")
 	var input any = req.Input
 	if req.InputYAML != nil {
